@@ -187,6 +187,10 @@ BunNZ(b) == {t \in DOMAIN b : b[t] # 0}
 (*   undef : TRUE once an operation hit a corner excluded by DESIGN 5.4    *)
 (*   ncell : number of cell instances created so far                       *)
 (***************************************************************************)
+\* abstract memory: cell instance number -> [v: value read from the cell, on: latch state]
+ZeroCell == [v |-> 0, on |-> FALSE]
+MemGet(mem, i) == IF i \in DOMAIN mem THEN mem[i] ELSE ZeroCell
+
 RECURSIVE EvalE(_, _)
 TypeOfLit(t, w) == IF "s" \in DOMAIN t THEN [t |-> t.s, free |-> FALSE]
                    ELSE LET x == w.env[t.of] IN [t |-> x.t, free |-> x.free]
@@ -256,31 +260,119 @@ EvalE(e, w) ==
          IN IF \E i \in DOMAIN vs : vs[i].kind = "err" THEN VErr("undef") ELSE VBun(F[Len(vs)])
     [] e.k = "sel" -> LET a == EvalE(e.b, w) IN IF a.kind = "err" THEN a ELSE VSig(e.t, FALSE, BunGet(a.b, e.t))
     [] e.k = "eout" -> VBun(w.cont[e.n])
-    [] e.k = "read" -> LET m == w.env[e.m] IN VSig(m.t, m.free, w.mem[m.v].v)
+    [] e.k = "read" -> LET m == w.env[e.m] IN VSig(m.t, m.free, MemGet(w.mem, m.v).v)
     [] e.k = "any" -> VErr("bare-any")
     [] e.k = "all" -> VErr("bare-all")
 
 Eval(e, w) == EvalE(e, w)
 
+
 (* ------------------------ statement interpreter ------------------------ *)
+(* World: what executing statements produces.                              *)
+(*   env     name -> value (one map; scopes = restore the map after block) *)
+(*   val     input name -> Int32: run-time value of declared inputs        *)
+(*   cont    entity name -> bundle: contents reported by read entities     *)
+(*   mem     cell instance -> [v, on]: abstract memory state (read side)   *)
+(*   memN    next abstract memory state (written side)                     *)
+(*   info    cell instance -> what its write evaluated to in this run      *)
+(*   ents    placed entities [n, proto, x, y, props], in placement order   *)
+(*   enables <<[ent, v]>>: value assigned to entity.enable                  *)
+(*   named   top-level named results; order = declaration order            *)
+(*   undef   an operation hit a corner excluded by DESIGN 5.4              *)
+(*   ncell   number of cell instances created so far                       *)
+(*   funs    function name -> declaring statement                          *)
+(***************************************************************************)
 EmptyWorld(val, cont, mem) ==
-  [env |-> <<>>, val |-> val, cont |-> cont, mem |-> mem, memN |-> mem, ents |-> <<>>,
-   named |-> <<>>, order |-> <<>>, undef |-> FALSE, ncell |-> 0, funs |-> <<>>]
+  [env |-> <<>>, val |-> val, cont |-> cont, mem |-> mem, memN |-> <<>>, info |-> <<>>, ents |-> <<>>, enables |-> <<>>,
+   named |-> <<>>, order |-> <<>>, undef |-> FALSE, ncell |-> 0, funs |-> <<>>, ret |-> VInt(0)]
 Bind(env, n, v) == (n :> v) @@ env      \* @@ prefers the left operand: inner definitions shadow
 SetEnv(w, n, v) == [w EXCEPT !.env = Bind(w.env, n, v)]
 MarkUndef(w, v) == IF v.kind = "err" THEN [w EXCEPT !.undef = TRUE] ELSE w
 \* top-level named results: name -> value, in declaration order
 Name(w, n, v, top) == IF top THEN [w EXCEPT !.named = Bind(w.named, n, v), !.order = Append(w.order, n)] ELSE w
+ValOr0(v) == IF v.kind = "err" THEN 0 ELSE v.v
 
-RECURSIVE Exec(_, _, _, _)
+\* iteration values of a for loop; bounds are Num or Ref (int variables)
+BoundVal(b, w) == IF b.k = "num" THEN b.v ELSE w.env[b.n].v
+RECURSIVE RangeVals(_, _, _, _)
+RangeVals(i, stop, step, fuel) ==
+  IF fuel = 0 \/ (step > 0 /\ i >= stop) \/ (step < 0 /\ i <= stop) THEN <<>>
+  ELSE <<i>> \o RangeVals(i + step, stop, step, fuel - 1)
+IterVals(it, w) ==
+  IF it.k = "list" THEN it.vs
+  ELSE LET a == BoundVal(it.a, w)  b == BoundVal(it.b, w)
+           s0 == BoundVal(it.s, w)
+           s == IF it.s.k = "num" /\ s0 = 0 THEN (IF a < b THEN 1 ELSE -1) ELSE s0
+       IN IF s = 0 THEN <<>> ELSE RangeVals(a, b, s, 2000)
+
+\* abstract effect of one write on its cell, given the values it evaluated to
+\*   plain / when : gated cell  cell' = IF c > 0 THEN v ELSE cell      (plain: c = 1)
+\*   latch        : state machine over (set, reset) with the priority named first in the call
+LatchNext(mode, on, sa, ra) ==
+  IF sa /\ ra THEN (mode = "set_reset") ELSE IF sa THEN TRUE ELSE IF ra THEN FALSE ELSE on
+WriteCell(w, s, cell) ==
+  LET v == Eval(s.e, w)
+      old == MemGet(w.mem, cell)
+  IN IF s.mode \in {"plain", "when"}
+     THEN LET c == IF s.mode = "plain" THEN VInt(1) ELSE Eval(s.a, w)
+              nv == IF ValOr0(c) > 0 THEN ValOr0(v) ELSE old.v
+          IN [w EXCEPT !.memN = (cell :> [v |-> nv, on |-> FALSE]) @@ w.memN,
+                       !.info = (cell :> [mode |-> s.mode, c |-> ValOr0(c), v |-> ValOr0(v), sa |-> FALSE, ra |-> FALSE]) @@ w.info,
+                       !.undef = w.undef \/ v.kind = "err" \/ c.kind = "err"]
+     ELSE LET sv == Eval(s.a, w)  rv == Eval(s.b, w)
+              sa == ValOr0(sv) # 0  ra == ValOr0(rv) # 0
+              on == LatchNext(s.mode, old.on, sa, ra)
+          IN [w EXCEPT !.memN = (cell :> [v |-> IF on THEN ValOr0(v) ELSE 0, on |-> on]) @@ w.memN,
+                       !.info = (cell :> [mode |-> s.mode, c |-> 0, v |-> ValOr0(v), sa |-> sa, ra |-> ra]) @@ w.info,
+                       !.undef = w.undef \/ v.kind = "err" \/ sv.kind = "err" \/ rv.kind = "err"]
+
+RECURSIVE Exec(_, _, _, _), ExecS(_, _, _), ExecLoop(_, _, _, _), ExecCall(_, _)
+\* a call: body executed in a scope that holds only the functions and the parameters; effects on the world persist,
+\* the caller's names are restored afterwards; w.ret carries the returned value
+BindParams(ps, args, i, env, w) ==
+  LET F[k \in 0..Len(ps)] == IF k = 0 THEN env ELSE
+        LET a == Eval(args[k], w)
+            v == IF ps[k].ty = "int" THEN VInt(ValOr0(a))
+                 ELSE IF ps[k].ty = "Signal" /\ a.kind = "int" THEN VSig("?", TRUE, a.v) ELSE a
+        IN Bind(F[k-1], ps[k].n, v)
+  IN F[Len(ps)]
+ExecCall(e, w) ==
+  LET f == w.funs[e.f]
+      inner == [w EXCEPT !.env = BindParams(f.params, e.args, 1, <<>>, w)]
+      after == Exec(f.body, 1, inner, FALSE)
+      rv == IF "k" \in DOMAIN f.ret THEN Eval(f.ret, after) ELSE VInt(0)
+  IN [after EXCEPT !.env = w.env, !.ret = rv, !.undef = after.undef \/ rv.kind = "err"]
+ExecLoop(s, vals, i, w) ==
+  IF i > Len(vals) THEN w
+  ELSE LET inner == SetEnv(w, s.i, VInt(vals[i]))
+           after == Exec(s.body, 1, inner, FALSE)
+       IN ExecLoop(s, vals, i + 1, [after EXCEPT !.env = w.env])
 ExecS(s, w, top) ==
   CASE s.k = "in" -> LET v == VSig(IF s.t = "" THEN "?" ELSE s.t, s.t = "", w.val[s.n]) IN SetEnv(w, s.n, v)
     [] s.k = "int" -> LET v == Eval(s.e, w) IN MarkUndef(SetEnv(w, s.n, IF v.kind = "err" THEN v ELSE VInt(v.v)), v)
-    [] s.k = "let" -> LET v0 == Eval(s.e, w)
-                          \* `Signal x = <int expr>` makes a signal of compiler-chosen type
-                          v == IF v0.kind = "int" THEN VSig("?", TRUE, v0.v) ELSE v0
-                      IN MarkUndef(Name(SetEnv(w, s.n, v), s.n, v, top), v)
-    [] s.k = "expr" -> MarkUndef(w, Eval(s.e, w))
+    [] s.k = "let" ->
+         IF s.e.k = "call"
+         THEN LET w2 == ExecCall(s.e, w)
+                  v == IF w2.ret.kind = "int" THEN VSig("?", TRUE, w2.ret.v) ELSE w2.ret
+              IN Name(SetEnv(w2, s.n, v), s.n, v, top)
+         ELSE LET v0 == Eval(s.e, w)
+                  \* `Signal x = <int expr>` makes a signal of compiler-chosen type
+                  v == IF v0.kind = "int" THEN VSig("?", TRUE, v0.v) ELSE v0
+              IN MarkUndef(Name(SetEnv(w, s.n, v), s.n, v, top), v)
+    [] s.k = "expr" -> IF s.e.k = "call" THEN ExecCall(s.e, w) ELSE MarkUndef(w, Eval(s.e, w))
+    [] s.k = "mem" -> LET cell == w.ncell + 1 IN
+                      [SetEnv(w, s.n, VMem(IF s.t = "" THEN "?" ELSE s.t, s.t = "", cell)) EXCEPT !.ncell = cell]
+    [] s.k = "write" -> WriteCell(w, s, w.env[s.m].v)
+    [] s.k = "place" -> LET x == Eval(s.x, w)  y == Eval(s.y, w)
+                            ent == [n |-> s.n, proto |-> s.proto, x |-> ValOr0(x), y |-> ValOr0(y), props |-> s.props]
+                        IN [SetEnv(w, s.n, VEnt(Len(w.ents) + 1)) EXCEPT !.ents = Append(w.ents, ent),
+                                                                        !.undef = w.undef \/ x.kind = "err" \/ y.kind = "err"]
+    [] s.k = "prop" -> LET v == Eval(s.e, w) IN
+                       IF s.p = "enable" THEN [w EXCEPT !.enables = Append(w.enables, [ent |-> w.env[s.ent].v, v |-> ValOr0(v)]),
+                                                        !.undef = w.undef \/ v.kind = "err"]
+                       ELSE w
+    [] s.k = "func" -> [w EXCEPT !.funs = (s.n :> s) @@ w.funs]
+    [] s.k = "for" -> ExecLoop(s, IterVals(s.iter, w), 1, w)
     [] OTHER -> w
 Exec(ss, i, w, top) == IF i > Len(ss) THEN w ELSE Exec(ss, i + 1, ExecS(ss[i], w, top), top)
 Run(stmts, val, cont, mem) == Exec(stmts, 1, EmptyWorld(val, cont, mem), TRUE)
